@@ -119,7 +119,7 @@ func genAmt(rt *rapid.T, label string, ref *big.Int) *big.Int {
 }
 
 func TestPropGamm(t *testing.T) {
-	drv.Check(t, drv.Cfg{Name: "gamm-conservation", Rule: rule, Quick: 200, Thorough: 10000, Steps: 30, TSteps: 60}, func(rt *rapid.T, cs *drv.Case) {
+	drv.Check(t, drv.Cfg{Name: "gamm-conservation", Rule: rule, Quick: 200, Thorough: 4000, Steps: 30, TSteps: 60}, func(rt *rapid.T, cs *drv.Case) {
 		c := chain.New(t)
 		w := &world{c: c, isStab: map[uint64]bool{}, direct: map[uint64]map[string]*big.Int{}, classes: map[string]bool{}}
 		huge, _ := new(big.Int).SetString("1000000000000000000000000000000", 10)
